@@ -127,6 +127,47 @@ def instantiate_all_on(ck, prog, progv):
     ck.require(n >= 1, 'vault instantiate: no Ok path')
 
 
+def native_lp_withdraw(ck, prog, prog3, progv):
+    """the direct WithdrawLiquidity{} / Withdraw{} messages of pools and vaults whose LP token is a native (token-factory) denom: the LP coin is
+    attached to the message, there is no cw20 hook in between.  The withdrawal switch must stop this path too.  (In the default build such a
+    pool cannot be instantiated - TokenFactoryNotEnabled - but the dispatch code is the same in the token-factory builds that can; the pre-state
+    is constructed directly and the total supply is answered by the token-info query the default build issues.)"""
+    import lib_trio as LT
+    NLP = 'native_lp_denom'
+    def pair_body(it):
+        c = it.ctx
+        st = setup_pair(it, KIND_CFGS['nc'], toggles=toggles_sym(c)); common_inv(c, st)
+        amt = c.sym('amount', 128); c.assume(amt <= st['S'])
+        it.setfld(it.world.storage['pair_info'], 'liquidity_token', it.mkv(AIR, 'NativeToken', denom=Str(NLP)))
+        it.world.cw20_info[NLP] = dict(total_supply=st['S'], decimals=6)
+        return enter(it, CP, 'execute', mk_env(it, 10**18), mk_info('holder', [COIN(NLP, amt)]), it.mkv(XM, 'WithdrawLiquidity'))
+    def trio_body(it):
+        c = it.ctx
+        st = LT.setup_trio(it, ('native', 'native', 'cw20'), (c.symbool('t_withdrawals'), c.symbool('t_deposits'), c.symbool('t_swaps'))); LT.trio_inv(c, st)
+        amt = c.sym('amount', 128); c.assume(amt <= st['S'])
+        it.setfld(it.world.storage['trio_info'], 'liquidity_token', it.mkv(AIR, 'NativeToken', denom=Str(NLP)))
+        it.world.cw20_info[NLP] = dict(total_supply=st['S'], decimals=6)
+        return enter(it, LT.T3, 'execute', mk_env(it, 10**18, height=c.sym('height', 64)), mk_info('holder', [COIN(NLP, amt)]), it.mkv(LT.TXM, 'WithdrawLiquidity'))
+    def vault_body(it):
+        c = it.ctx
+        st = LV.setup_vault(it, 'native', (c.symbool('t_flash'), c.symbool('t_deposit'), c.symbool('t_withdraw')))
+        amt = c.sym('amount', 128); c.assume(st['F'] <= st['B']); c.assume(amt <= st['S'])
+        it.setfld(it.world.storage['config'], 'lp_asset', it.mkv(LV.AI, 'NativeToken', denom=Str(NLP)))
+        it.world.cw20_info[NLP] = dict(total_supply=st['S'], decimals=6)
+        return enter(it, 'vault', 'execute', mk_env(it, 10**18), mk_info('holder', [COIN(NLP, amt)]), it.mkv(LV.VX, 'Withdraw'))
+    for name, pr, body, bit in (('pair', prog, pair_body, z3.Bool('t_withdrawals')), ('trio', prog3, trio_body, z3.Bool('t_withdrawals')), ('vault', progv, vault_body, z3.Bool('t_withdraw'))):
+        seen_ok = False
+        for p in ck.explore(pr, body, name + '.withdraw.native_lp'):
+            ck.sample(dict(entry=name + ' direct withdraw with a native LP coin attached', outcome=p.short()))
+            if p.ok:
+                seen_ok = True
+                ck.oblige('C17.%s.withdraw.native_lp.off_rejects' % name, p, z3.Not(bit), 'the direct withdrawal of a native LP coin is accepted only while the withdrawal switch is on',
+                          site='direct withdraw path with a native LP token')
+            elif p.err and (is_disabled_err(p, ()) or 'Disabled' in p.short() or 'disabled' in p.short()):
+                ck.oblige('C17.%s.withdraw.native_lp.on_not_disabled' % name, p, bit, 'the "disabled" rejection only when the withdrawal switch is off')
+                ck.oblige('C17.%s.withdraw.native_lp.reject_no_write' % name, p, len(p.world.writes) != 0, 'a paused withdrawal writes nothing')
+        ck.require(seen_ok, name + '.withdraw.native_lp: no accepted path')
+
 def main():
     ck = Check('C17')
     prog = ck.program('terraswap_pair', 'white_whale_std'); progv = ck.program('vault', 'white_whale_std')
@@ -136,8 +177,11 @@ def main():
         c17_trio.run(ck)
     except ImportError:
         ck.outside.append('three-asset pool part not built')
+    native_lp_withdraw(ck, prog, ck.program('stableswap_3pool', 'white_whale_std'), progv)
+    import c17_migrate
+    c17_migrate.run(ck, prog, progv)
     ck.bounds.update(toggles='all 2^3 combinations at once (three symbolic bits)', paths='pair: native swap, cw20-hook swap, provide (first/next), cw20-hook withdraw; vault: deposit (first/next), cw20-hook withdraw, flash loan; native and cw20 assets')
-    ck.outside += ['token-factory LP withdraw paths (WithdrawLiquidity{} / Withdraw{} with native LP, features off)',
+    ck.outside += ['token-factory builds (osmosis / injective features): the default build is analysed; the direct native-LP withdraw dispatch is covered from a constructed pre-state, the token-factory mint / burn messages are not',
                    'indirect callers (router, frontend helper, vault router) reach these same entry points through emitted messages: their message shape is C06/C11/C15']
     return ck.finish()
 
